@@ -36,6 +36,10 @@ pub struct Input {
     pub reply_qos: u8,
     #[serde(default)]
     pub reply_max_qos: Option<u8>,
+    /// further legal publish properties attached to a third reply (bit 0 Response Topic for a
+    /// follow-up, bit 1 Content Type, bit 2 Payload Format Indicator, bit 3 Message Expiry)
+    #[serde(default)]
+    pub follow: u8,
 }
 
 pub fn response_topic(len: u32, variant: u8) -> String {
@@ -112,8 +116,10 @@ pub fn strategy(big: bool) -> BoxedStrategy<Input> {
         0u8..3,
         prop_oneof![3 => Just(0u8), 1 => Just(1u8), 1 => Just(2u8)],
         prop_oneof![3 => Just(None), 1 => Just(Some(0u8)), 1 => Just(Some(1u8))],
+        prop_oneof![1 => Just(0u8), 3 => 1u8..16],
     )
-        .prop_map(|(response_topic, correlation, others, pos_rt, pos_cd, added, qos, reply_qos, reply_max_qos)| Input {
+        .prop_map(|(response_topic, correlation, others, pos_rt, pos_cd, added, qos, reply_qos, reply_max_qos, follow)| Input {
+            follow,
             reply_qos,
             reply_max_qos,
             response_topic: response_topic.map(|(l, v)| (l.max(1), v)),
@@ -184,6 +190,27 @@ fn publish_via_b(
 }
 
 fn check_reply(pb: &rc::Publish, rt: &str, cd: &Option<Vec<u8>>, added: &[(String, String)], v: &mut Vec<Violation>, what: &str) {
+    check_reply_ext(pb, rt, cd, added, &[], v, what)
+}
+
+fn follow_props(follow: u8) -> Vec<Prop> {
+    let mut out = Vec::new();
+    if follow & 1 != 0 {
+        out.push(Prop::ResponseTopic("follow/up".into()));
+    }
+    if follow & 2 != 0 {
+        out.push(Prop::ContentType("text/x".into()));
+    }
+    if follow & 4 != 0 {
+        out.push(Prop::PayloadFormat(1));
+    }
+    if follow & 8 != 0 {
+        out.push(Prop::MessageExpiry(9));
+    }
+    out
+}
+
+fn check_reply_ext(pb: &rc::Publish, rt: &str, cd: &Option<Vec<u8>>, added: &[(String, String)], more: &[Prop], v: &mut Vec<Violation>, what: &str) {
     if pb.topic != rt {
         bad(v, &format!("C20/{what}-topic"), format!("reply topic {:?} ({} bytes), response topic was {} bytes", &pb.topic[..pb.topic.len().min(30)], pb.topic.len(), rt.len()));
     }
@@ -204,9 +231,12 @@ fn check_reply(pb: &rc::Publish, rt: &str, cd: &Option<Vec<u8>>, added: &[(Strin
     if ups != added {
         bad(v, &format!("C20/{what}-user-properties"), format!("reply user properties {ups:?}, added {added:?}"));
     }
-    let extra = pb.props.iter().filter(|p| !matches!(p, Prop::CorrelationData(_) | Prop::UserProperty(_, _))).count();
-    if extra != 0 {
-        bad(v, &format!("C20/{what}-extra-properties"), format!("reply carries unrelated properties {:?}", pb.props));
+    let mut extra: Vec<Prop> = pb.props.iter().filter(|p| !matches!(p, Prop::CorrelationData(_) | Prop::UserProperty(_, _))).cloned().collect();
+    let mut want: Vec<Prop> = more.to_vec();
+    extra.sort_by_key(|p| format!("{p:?}"));
+    want.sort_by_key(|p| format!("{p:?}"));
+    if extra != want {
+        bad(v, &format!("C20/{what}-extra-properties"), format!("reply carries the other properties {extra:?}, attached were {want:?}"));
     }
 }
 
@@ -347,6 +377,17 @@ pub fn eval(inp: &Input) -> Out {
                 if let Some(pb) = publish_via_b(&mut cb, &tr_b, p2, &mut v, "reply-with-properties") {
                     check_reply(&pb, t, &cd, &inp.added, &mut v, "reply-with-properties");
                 }
+                // a reply that carries further publish properties of its own (e.g. a Response Topic
+                // for the follow-up) is still addressed to the requester and keeps the correlation
+                if inp.follow != 0 {
+                    let more = follow_props(inp.follow);
+                    let mut all: Vec<Property<'_>> = more.iter().map(to_property).collect();
+                    all.extend(inp.added.iter().map(|(k, val)| Property::UserProperty(k, val)));
+                    let p3 = msg.reply(&b"pong"[..]).unwrap().properties(&all);
+                    if let Some(pb) = publish_via_b(&mut cb, &tr_b, p3, &mut v, "reply-with-follow-up") {
+                        check_reply_ext(&pb, t, &cd, &inp.added, &more, &mut v, "reply-with-follow-up");
+                    }
+                }
             }
         }
         // reply_owned() over the capacity lattice
@@ -397,7 +438,7 @@ pub fn run(ctx: &Ctx) -> i32 {
         agg,
         Report {
             level: "exploration",
-            rule: "generated inbound PUBLISH (QoS 0-2) carrying a response topic (1..65535 bytes, lengths concentrated at capacity-1/capacity/capacity+1 of the owned capacities {1,8,64,300}; the thorough tier also 16383/16384/65534/65535) and/or correlation data (0..65535 bytes, concentrated around {0,1,8,64}) inserted at generated positions among other properties, or absent; reply(), reply()+user properties and reply_owned::<T,C> for 10 capacity pairs are each *published through a second session* and decoded from its wire by the reference codec: topic == response topic, exactly one correlation data == inbound bytes (none if absent), user properties preserved; no response topic => None; capacity too small => BufferTooSmall, never truncation. Non-trivial = response topic present and (correlation data together with added user properties, or a length within 1 of an owned capacity); distinct = distinct input value.".into(),
+            rule: "generated inbound PUBLISH (QoS 0-2) carrying a response topic (1..65535 bytes, lengths concentrated at capacity-1/capacity/capacity+1 of the owned capacities {1,8,64,300}; the thorough tier also 16383/16384/65534/65535) and/or correlation data (0..65535 bytes, concentrated around {0,1,8,64}) inserted at generated positions among other properties, or absent; reply(), reply()+user properties and reply_owned::<T,C> for 10 capacity pairs are each *published through a second session* and decoded from its wire by the reference codec: topic == response topic, exactly one correlation data == inbound bytes (none if absent), user properties preserved, and a third reply with further publish properties of its own (Response Topic for a follow-up, Content Type, Payload Format Indicator, Message Expiry in all 15 combinations) keeps topic, correlation and exactly those properties; no response topic => None; capacity too small => BufferTooSmall, never truncation. Non-trivial = response topic present and (correlation data together with added user properties, or a length within 1 of an owned capacity); distinct = distinct input value.".into(),
             assumptions: vec!["at most one Response Topic / Correlation Data property per inbound PUBLISH (duplicates are a protocol error)".into()],
         },
     )
